@@ -76,6 +76,7 @@ type witness struct {
 }
 
 const parallelHistories = 8 // x1 watcher each; inotify max_user_instances is 128 on this box
+const stopAfterViolations = 3
 
 func main() {
 	run := verdict.Start("C14", "exploration",
@@ -187,7 +188,11 @@ func main() {
 			}
 		}()
 	}
-	for _, h := range hists {
+	for i, h := range hists {
+		if run.Violations() >= stopAfterViolations { // refuted already; every further refutation costs the 5 s bound
+			run.Set("stopped_early", fmt.Sprintf("%d violations after %d of %d histories", run.Violations(), i, len(hists)))
+			break
+		}
 		jobs <- h
 	}
 	close(jobs)
@@ -274,6 +279,9 @@ func replay(run *verdict.Run, pool *pairPool) {
 		}
 		if res.inconclusive != "" {
 			run.Inconclusive("replay run %d: %s", i, res.inconclusive)
+		}
+		if bad >= stopAfterViolations {
+			break
 		}
 	}
 	if bad == 0 {
